@@ -36,7 +36,7 @@ def _idle(step: Step, open_ports: Iterable[str]) -> bool:
     return True
 
 
-async def settle(step: Step, task: asyncio.Task, open_ports: list[str], budget_s: float = 20.0) -> None:
+async def settle(step: Step, task: asyncio.Task, open_ports: list[str], budget_s: float = 180.0) -> None:
     """wait until `step` (running as `task`) is blocked on every open input port, or has finished"""
     loop = asyncio.get_running_loop()
     t0 = loop.time()
@@ -55,7 +55,7 @@ async def settle(step: Step, task: asyncio.Task, open_ports: list[str], budget_s
             await asyncio.sleep(0)
 
 
-async def drive(step: Step, events: list[tuple[str, Token]], imposed: bool = True, budget_s: float = 30.0) -> None:
+async def drive(step: Step, events: list[tuple[str, Token]], imposed: bool = True, budget_s: float = 180.0) -> None:
     """run `step.run()` feeding `events` = [(input port name, token)] (termination tokens included by the caller).
     imposed=True: one token at a time, each consumed before the next is put (the list IS the arrival order);
     imposed=False: everything is put first (per-port FIFO order = list order), the event loop interleaves the ports."""
@@ -96,6 +96,35 @@ async def drive(step: Step, events: list[tuple[str, Token]], imposed: bool = Tru
                 await task
             except BaseException:  # noqa: BLE001
                 pass
+
+
+def workflow_progress(wf: Workflow) -> tuple:
+    """a signature that changes whenever anything happens in a running workflow"""
+    return (sum(len(p.token_list) for p in wf.ports.values()), sum(1 for st in wf.steps.values() if st.terminated))
+
+
+async def run_workflow(wf: Workflow, executor_run, stall_s: float = 180.0, cap_s: float = 1500.0):
+    """await `executor_run` (a coroutine running the workflow) under a PROGRESS watchdog: a hang is `stall_s` seconds of wall
+    clock without any new token on any port and without any step terminating (so a slow, loaded machine is not a hang).
+    Returns (hung, result, live step names)."""
+    loop = asyncio.get_running_loop()
+    run = asyncio.create_task(executor_run)
+    last, t_last, t0 = workflow_progress(wf), loop.time(), loop.time()
+    while True:
+        done, _ = await asyncio.wait([run], timeout=1.0)
+        if done:
+            return False, run.result(), []
+        now, sig = loop.time(), workflow_progress(wf)
+        if sig != last:
+            last, t_last = sig, now
+        if now - t_last > stall_s or now - t0 > cap_s:
+            live = sorted(st.name for st in wf.steps.values() if not st.terminated)
+            run.cancel()
+            try:
+                await run
+            except BaseException:  # noqa: BLE001
+                pass
+            return True, None, live
 
 
 async def save_tokens(context, port: Port, tokens: Iterable[Token]) -> None:
